@@ -53,6 +53,11 @@ def corpus():
     # two look_back entries live at once: the deepest wildcard must be retried first (LIFO)
     cs.append(dict(cmds=_adds(['/a/b/d', '/a/<y>/c', '/<x>/b/c', '/<x>/<y>/c', '/a/b/<z>/e'])
                    + _probes(['/a/b/c', '/a/q/c', '/q/b/c', '/q/q/c', '/a/b/d', '/a/b/q', '/a/b/q/e'])))
+    # a rule whose methods were all removed still owns its path: 405 (empty Allow), not the wildcard sibling, not 404
+    cs.append(dict(cmds=_adds(['/item/new', '/item/<id>', '/item/<id>/x'])
+                   + [dict(op='remove_method', rule='/item/new', methods=['GET']), dict(op='remove_via', rule='/item/<id>/x', verb='GET')]
+                   + _probes(['/item/new', '/item/5', '/item/5/x', '/item/new/x'])
+                   + [dict(op='resolve_route', path='/item/new'), dict(op='resolve_route', path='/item/5/x')]))
     # conflicting filters: the second add is rejected
     cs.append(dict(cmds=_adds(['/a/<x:int>', '/a/<x>', '/a/<y:int>/z', '/a/<x:re:[a-c]+>'])
                    + _probes(['/a/12', '/a/zz', '/a/12/z', '/a/ab', '/a/١٢', '/a/-3/z', '/a/1.5'])))
@@ -139,6 +144,13 @@ def gen(rng, n):
             order = list(base)
             rng.shuffle(order)
             cmds = [dict(op='add', rule=r, methods=['GET'], h=i) for i, (r, _s) in enumerate(order)]
+            if rng.random() < 0.5:
+                # one rule of the family (most often the all-literal one) loses ALL its methods: it still is the route
+                # its path selects (405 with an empty Allow) and must not hand the request to a wildcard sibling
+                victim = base[0][0] if rng.random() < 0.6 else rng.choice(base)[0]
+                cmds.append(rng.choice([dict(op='remove_method', rule=victim, methods=['GET']),
+                                        dict(op='remove_method', rule=victim, methods='GET'),
+                                        dict(op='remove_via', rule=victim, verb='GET')]))
             paths = [hit] + [L.mutate_path(rng, hit) for _k in range(3)] + [L.mutate_path(rng, L.instantiate(rng, sg))
                                                                           for _r, sg in rng.sample(base, min(3, len(base)))]
             yield dict(cmds=cmds + _probes(paths))
@@ -441,6 +453,16 @@ def _oracle(case, obs):
                                             methods={}, rule=c['rule'], pattern=pattern)
             for m in ms:
                 ent['methods'][m] = (c['h'], params)
+        elif c['op'] in ('remove_method', 'remove_via'):
+            pattern, _p, filters, _a, _b = Route.parse_rule(c['rule'])
+            fl = L.flat_pattern(pattern, filters)
+            same = [e for e in table.values() if e['flat'] == fl]       # same text pieces and the same filters
+            ent = same[0] if same else None
+            if ent is not None:
+                gone = [c['verb']] if c['op'] == 'remove_via' else (
+                    c['methods'] if isinstance(c['methods'], list) else [c['methods']])
+                for m in gone:
+                    ent['methods'].pop(m, None)
         elif c['op'] in ('dispatch', 'resolve_route'):
             sp = c['path'].strip('/')
             hits = []
